@@ -819,7 +819,7 @@ pub fn c11(ctx: &mut Ctx) {
             ctx.rep.count("C11_systematic_scripts");
         }
     }
-    let n = ctx.n(4000, 400_000, 3);
+    let n = ctx.n(16_000, 2_000_000, 3);
     for k in 0..n {
         let i = 10_000_000 + ctx.shard + k * ctx.nshards;
         let prefix = (i % 6) as u8;
